@@ -622,6 +622,23 @@ func ruleUntrustedSize(r *Run) {
 				}
 			case *ssa.MakeChan:
 				sizes = []ssa.Value{x.Size}
+			case *ssa.Call:
+				// growing a buffer ahead of reading is an allocation of that size as well
+				switch calleeName(x) {
+				case "(*bytes.Buffer).Grow", "(*strings.Builder).Grow":
+					if len(x.Call.Args) == 2 {
+						sizes = []ssa.Value{x.Call.Args[1]}
+					}
+				case "slices.Grow":
+					if len(x.Call.Args) == 2 {
+						sizes = []ssa.Value{x.Call.Args[1]}
+					}
+				default:
+					return
+				}
+				if len(sizes) == 0 {
+					return
+				}
 			default:
 				return
 			}
@@ -635,6 +652,9 @@ func ruleUntrustedSize(r *Run) {
 				if _, isC := sz.(*ssa.Const); isC {
 					continue
 				}
+				if clampedSize(sz, 0) {
+					continue // bounded by a constant (if n > max { n = max }, min(n, max)): a hint, not a demand
+				}
 				for v := range sl.Slice(sz).Vals {
 					var fv *types.Var
 					switch y := v.(type) {
@@ -645,6 +665,32 @@ func ruleUntrustedSize(r *Run) {
 					}
 					if fv != nil && fv.Pkg() != nil && fv.Pkg().Path() == "archive/zip" && strings.Contains(fv.Name(), "Size") {
 						bad = "archive/zip." + fv.Name()
+					}
+					// the size comes in as a parameter of a reading helper (readAllSized(rc, n)): what do the
+					// callers hand in?
+					if par, ok := v.(*ssa.Parameter); ok && par.Parent() == fn && fn.Parent() == nil {
+						pi := paramIndex(fn, par)
+						for _, cs := range staticCallSites(p, fn) {
+							if pi < 0 || pi >= len(cs.Common().Args) {
+								continue
+							}
+							a := cs.Common().Args[pi]
+							if clampedSize(a, 0) {
+								continue
+							}
+							for v2 := range sl.Slice(a).Vals {
+								var f2 *types.Var
+								switch y := v2.(type) {
+								case *ssa.FieldAddr:
+									f2, _ = fieldOfAddr(y)
+								case *ssa.Field:
+									f2, _ = fieldOfVal(y)
+								}
+								if f2 != nil && f2.Pkg() != nil && f2.Pkg().Path() == "archive/zip" && strings.Contains(f2.Name(), "Size") {
+									bad = "archive/zip." + f2.Name() + " (handed in by " + shortName(topLevel(cs.Parent())) + ")"
+								}
+							}
+						}
 					}
 				}
 			}
@@ -1303,6 +1349,88 @@ func ruleLoopFresh(r *Run) {
 				r.Check("loop-fresh", fmt.Sprintf("%s#%d:%s", shortName(fn), idx, sn.Obj().Name()), in.Pos(), !invariant,
 					fmt.Sprintf("%s inserts a %s inside a loop; the value %s", shortName(fn), typeName(sn), map[bool]string{false: "is built in the loop (each inserted element has its own properties and content)", true: "is built once outside the loop, so every inserted element shares its property pointers and paragraph storage: editing one of them changes the others"}[invariant]))
 			}
+		})
+	}
+	// Second form: an element of the table that already exists is given, in a loop, a slice / map /
+	// pointer value that was made ONCE outside the loop (`empty := []Paragraph{{}}; for … { cell.Paragraphs
+	// = empty }`): all the elements then share one backing store, and writing the text of one cell
+	// changes the others.
+	for _, fn := range p.ModFuncs() {
+		if fn.Pkg == nil || fn.Pkg.Pkg.Path() != pkgDoc || fn.Parent() != nil {
+			continue
+		}
+		if fn.Signature.Recv() == nil || !typeIs(fn.Signature.Recv().Type(), pkgDoc, "Table") {
+			continue
+		}
+		loops := naturalLoops(fn)
+		idx := 0
+		allInstrs(fn, func(in ssa.Instruction) {
+			st, ok := in.(*ssa.Store)
+			if !ok {
+				return
+			}
+			fa, ok := st.Addr.(*ssa.FieldAddr)
+			if !ok {
+				return
+			}
+			switch st.Val.Type().Underlying().(type) {
+			case *types.Slice, *types.Map, *types.Pointer:
+			default:
+				return
+			}
+			var l *natLoop
+			for _, cand := range loops {
+				if cand.Body[st.Block()] && (l == nil || len(cand.Body) < len(l.Body)) {
+					l = cand
+				}
+			}
+			if l == nil {
+				return
+			}
+			// the element written to changes with the iteration: its address is an IndexAddr whose index
+			// is computed inside the loop
+			varies := false
+			v := fa.X
+			for d := 0; d < 12 && v != nil; d++ {
+				switch x := v.(type) {
+				case *ssa.IndexAddr:
+					if ii, ok := x.Index.(ssa.Instruction); ok && l.Body[ii.Block()] {
+						varies = true
+					}
+					v = x.X
+				case *ssa.FieldAddr:
+					v = x.X
+				case *ssa.UnOp:
+					v = x.X
+				default:
+					v = nil
+				}
+			}
+			if !varies {
+				return
+			}
+			// the stored value is an allocation made before the loop
+			made := false
+			switch x := st.Val.(type) {
+			case *ssa.Slice:
+				if al, ok := x.X.(*ssa.Alloc); ok && !l.Body[al.Block()] && !l.Body[x.Block()] {
+					made = true
+				}
+			case *ssa.MakeSlice:
+				made = !l.Body[x.Block()]
+			case *ssa.MakeMap:
+				made = !l.Body[x.Block()]
+			case *ssa.Alloc:
+				made = x.Heap && !l.Body[x.Block()]
+			}
+			if !made {
+				return
+			}
+			idx++
+			n++
+			fv, _ := fieldOfAddr(fa)
+			r.Check("loop-fresh", fmt.Sprintf("%s:shared-store#%d:%s", shortName(fn), idx, fv.Name()), st.Pos(), false,
+				fmt.Sprintf("%s stores into field %s of a different table element on every iteration a value that was allocated once, before the loop: the elements share that backing store, so writing one of them later changes the others", shortName(fn), fv.Name()))
 		})
 	}
 	r.Min("struct_insertions_in_table_loops", n, 5)
@@ -1988,6 +2116,22 @@ func ruleNestedUntainted(r *Run) {
 					for v := range sl.Slice(a).Vals {
 						if call, ok := v.(*ssa.Call); ok && conv[staticCallee(call)] {
 							bad = p.pos(call.Pos())
+						}
+						// …nor may it have been through a pass that interprets directives against the
+						// CURRENT item (a method handed the item's field map): an inner block's {{#if}} is
+						// about the inner item
+						if call, ok := v.(*ssa.Call); ok {
+							if cal := staticCallee(call); cal != nil && cal != fn && p.inModule(cal) && isStringType(call.Type()) {
+								for _, ca := range call.Call.Args {
+									if mt, ok := ca.Type().Underlying().(*types.Map); ok {
+										if kb, ok := mt.Key().Underlying().(*types.Basic); ok && kb.Info()&types.IsString != 0 {
+											if _, isIface := mt.Elem().Underlying().(*types.Interface); isIface && call.Parent() == g {
+												bad = p.pos(call.Pos()) + " (" + shortName(cal) + " applied to the enclosing item first)"
+											}
+										}
+									}
+								}
+							}
 						}
 					}
 					r.Check("nested-untainted", fmt.Sprintf("%s:arg%d#%d", shortName(fn), ai, idx), c.Pos(), bad == "",
@@ -3813,6 +3957,44 @@ func comparedWithConst(v ssa.Value, depth int) bool {
 						return true
 					}
 				case "EqualFold":
+					return true
+				}
+			}
+		}
+	}
+	return false
+}
+
+// clampedSize: the size expression is bounded above by a constant — it is (a conversion / constant
+// offset of) a phi with a constant edge, or of min(x, constant).
+func clampedSize(v ssa.Value, depth int) bool {
+	if v == nil || depth > 6 {
+		return false
+	}
+	switch x := v.(type) {
+	case *ssa.Convert:
+		return clampedSize(x.X, depth+1)
+	case *ssa.ChangeType:
+		return clampedSize(x.X, depth+1)
+	case *ssa.BinOp:
+		if x.Op == token.ADD || x.Op == token.SUB {
+			if _, isC := x.Y.(*ssa.Const); isC {
+				return clampedSize(x.X, depth+1)
+			}
+			if _, isC := x.X.(*ssa.Const); isC {
+				return clampedSize(x.Y, depth+1)
+			}
+		}
+	case *ssa.Phi:
+		for _, e := range x.Edges {
+			if _, isC := e.(*ssa.Const); isC {
+				return true
+			}
+		}
+	case *ssa.Call:
+		if b, ok := x.Call.Value.(*ssa.Builtin); ok && b.Name() == "min" {
+			for _, a := range x.Call.Args {
+				if _, isC := a.(*ssa.Const); isC {
 					return true
 				}
 			}
